@@ -28,6 +28,12 @@ func prodCampaign(rc *RunCtx, chains, steps int) {
 					if gs.TokenMessengerList[i].DomainId == 3 {
 						gs.TokenMessengerList[i].Address = make([]byte, 32)
 					}
+					if gs.TokenMessengerList[i].DomainId == 2 { // only a genesis file can hold a messenger that is not 32 bytes long
+						gs.TokenMessengerList[i].Address = Structured32(0x2c)[:20]
+					}
+					if gs.TokenMessengerList[i].DomainId == 1 && k%2 == 0 {
+						gs.TokenMessengerList[i].Address = append(Structured32(0x2d), 0xee)
+					}
 				}
 			case 3:
 				gs.MaxMessageBodySize.Amount = 132
